@@ -5,6 +5,7 @@ import ast
 import math
 
 from ..facets.pred import Pred
+from ..facets.poly import PolyFacet
 from ..ir import walk
 from ..loader import AnalysisError
 from .common import call_args, ATM_MOD, CONST_MOD, PRESS_MOD, is_ext_call, scatter_chain
@@ -111,7 +112,9 @@ def run(ck, ctx):
             Pc.cell = (pr, assign)
             label = ", ".join(("" if b_ else "not ") + "(" + pr.show_atom(k_) + ")" for k_, b_ in zip(keys, combo)) or "always"
             out[label] = (Pc, [Pc.of(r.value) for _m, _f, r in runs])
+            cell_info[label] = (pr, assign)
         return out
+    cell_info = {}
 
     def r191():
         for fname in FUNCS:
@@ -158,6 +161,84 @@ def run(ck, ctx):
                   (a.op == "Const" and g.same(a, b)), a,
                   "<module>", (a.extra or {}).get("global", g.show(a, 1)))
     ck.guard(r191, "R19.1")
+
+    # ---------------------------------------------------------------- R19.6 the two layer formulas
+    def r196():
+        """Hydrostatic formulas of the 1976 standard atmosphere per cell of the mask partition: isothermal layers
+        (lapse rate 0) use the exponential / logarithm, gradient layers the power law, geometric <-> geopotential
+        altitude through the Earth radius.  A change made to both copies alike (the sibling comparison cannot see
+        it) that replaces one form by a numerically different one - e.g. the power law with a tiny stand-in lapse
+        rate for isothermal layers - is a different function here."""
+        from ..facets.poly import eval_formula
+        Lm_t, T_t, P_t, H_t = (tables[k] for k in ("std_atm_lack_rate", "std_atm_temperature", "std_atm_pressure",
+                                                   "std_atm_geopotential_height"))
+        gmr_n = I.global_value(cm, "std_atm_gmr")
+        R_n = I.global_value(cm, "earth_radius")
+        REF = {
+            "us_std_atm_altitude_from_pressure": {
+                True: "R * (Hb + Tb / gmr * log(Pb / x)) / (R - (Hb + Tb / gmr * log(Pb / x)))",
+                False: "R * (Hb + Tb / L * (pow(Pb / x, L / gmr) - 1)) / (R - (Hb + Tb / L * (pow(Pb / x, L / gmr) - 1)))",
+            },
+            "us_std_atm_pressure_from_altitude": {
+                True: "Pb * exp(-gmr / Tb * (x * R / (x + R) - Hb))",
+                False: "Pb * pow(Tb / (Tb + L * (x * R / (x + R) - Hb)), gmr / L)",
+            },
+        }
+        for fname in FUNCS:
+            if fname not in results:
+                continue
+            x, vals = results[fname]
+            for mod, fi, r in vals:
+                tag = f"{fname} [{mod.split('.')[-1]}]"
+                cells = cells_of(fname, x, [(mod, fi, r)])
+
+                def lookup(tab):
+                    c_ = {g.vn(n.args[1]): n for n in walk([r.value]) if n.op == "Subscript" and n.args[0] is tab and
+                          n.args[1].op not in ("Const", "Slice")}
+                    return next(iter(c_.values())) if len(c_) == 1 else None
+                roles = {"L": lookup(Lm_t), "Tb": lookup(T_t), "Pb": lookup(P_t), "Hb": lookup(H_t), "x": x,
+                         "gmr": gmr_n, "R": R_n}
+                if any(v is None for v in roles.values()):
+                    ck.ob("R19.6", f"{tag}: one look-up per layer table", None, r.value, fname,
+                          str([k for k, v in roles.items() if v is None]))
+                    continue
+                n_cells = {True: 0, False: 0}
+                bad = []
+                for label, (Pc, (v,)) in cells.items():
+                    pr_, assign = cell_info[label]
+                    iso = valid = None
+                    for key, val in assign.items():
+                        kind, a_, b_ = pr_.atoms[key]
+                        nodes = [y for y in (a_, b_) if y is not None]
+                        if kind == "eq" and any(y.op == "Subscript" and y.args[0] is Lm_t for y in nodes) and \
+                                any(y.op == "Const" and y.attr == 0 for y in nodes):
+                            iso = val
+                        elif kind == "lt" and any(y is x or (y.op == "Call" and x in y.args) for y in nodes):
+                            # 0 < P   /   z < inf : the element has a finite image
+                            valid = val
+                    if iso is None or valid is not True:
+                        continue
+                    n_cells[iso] += 1
+                    keys = {g.vn(n) for k_, n in roles.items() if k_ not in ("gmr", "R")}
+                    Pc2 = PolyFacet(I, gather_transparent=True)
+                    Pc2.cell = (pr_, assign)
+                    Pc2.opaque = (lambda n, _k=keys, _o=Pc2.opaque: _o(n) or g.vn(n) in _k)
+                    try:
+                        got = Pc2.of(r.value)
+                        want = Pc2.ref(REF[fname][iso], {k: Pc2.of(n) for k, n in roles.items()})
+                        same = Pc2.equal(_bare_val(got), want)
+                    except Exception as ex:       # noqa: BLE001
+                        same = None
+                        bad.append(f"[{label}] {type(ex).__name__}: {ex}")
+                        continue
+                    if not same:
+                        bad.append(f"[{label}] {Pc2.show(got)[:200]}")
+                ck.ob("R19.6", f"{tag}: isothermal layers use the exponential / logarithm form, gradient layers the power "
+                      "law, with the geometric <-> geopotential conversion through the Earth radius", not bad and
+                      n_cells[True] >= 1 and n_cells[False] >= 1, r.value, fname,
+                      "; ".join(bad[:2]) or f"{n_cells[True]} isothermal / {n_cells[False]} gradient cell(s)",
+                      construct=f"{fname}: layer formula")
+    ck.guard(r196, "R19.6")
 
     # ---------------------------------------------------------------- R19.5 working precision
     def r195():
@@ -506,3 +587,8 @@ def _adds_axes_only(ix):
         else:
             return False
     return ok
+
+
+def _bare_val(v):
+    from ..facets.poly import Val
+    return Val(v.rat)
